@@ -57,6 +57,10 @@ def tasks_c01(tier, seed):
         ts += explore("Q1", CFG_DEFAULT, 0, shards=1, timeout="60s")
         # nested submissions: a callback is itself a producer for its own and another group
         ts += explore("Q8", "w1-in4-default-direct", 2, timeout="60s") + explore("Q8", alt, 2, timeout="60s") + explore("Q8", CFG_DEFAULT, 1, shards=2, timeout="60s")
+        # a backlog of 36 callbacks on one group while another group waits and a further submission arrives
+        ts += explore("Q9", "w1-in4-default-direct", 2, shards=2, timeout="60s") + explore("Q9", CFG_DEFAULT, 1, shards=4, timeout="60s")
+        # a second Serve as soon as Shutdown has returned, with a callback of the first epoch still to finish
+        ts += explore("S13b", "w1-in4-default-direct", 2, timeout="60s")
         # Q5: query requests, expiry and a concurrent callback of the same (non-default) group
         ts += explore("QEconc", CFG_DEFAULT, 1, shards=8, timeout="100s") + explore("QE1-model", CFG_DEFAULT, 1, shards=2, timeout="100s")
         # expiry while Shutdown waits for a callback of the same group; restart after Shutdown dropped queued work
@@ -75,6 +79,8 @@ def tasks_c01(tier, seed):
         ts += explore("Q1", CFG_DEFAULT, 1, shards=16, timeout=T)
         for c in (CFG_DEFAULT, alt, "w3-in1-literal-mount"):
             ts += explore("Q8", c, 2, shards=4, timeout=T)
+        ts += explore("Q9", "w1-in4-default-direct", 3, shards=4, timeout=T) + explore("Q9", CFG_DEFAULT, 2, shards=8, timeout=T)
+        ts += explore("S13b", "w1-in4-default-direct", 3, shards=4, timeout=T) + explore("S13b", CFG_DEFAULT, 2, shards=16, timeout=T)
         ts += explore("Q1s", "w1-in4-default-direct", 3, shards=16, timeout=T)
         ts += explore("QEconc", CFG_DEFAULT, 2, shards=16, timeout=T) + explore("QE1-model", CFG_DEFAULT, 2, shards=8, timeout=T)
         for sc in ("QEshutdownBusy", "S8", "S8r"):
@@ -84,15 +90,17 @@ def tasks_c01(tier, seed):
 
 def tasks_c03(tier, seed):
     ts = seq("c03s", tier, shards=4)
-    scens = ["S1", "S2", "S3Reset", "S3ResetAll", "S3TokenEvent", "S3TokenEventWithID", "S3TokenReset", "S4", "S4q", "S6", "S7", "S8", "S8r", "S9",
-             "S10", "S11", "S12", "Q6", "QEshutdown", "QEshutdownBusy"]
+    scens = ["S1", "S2", "S2u", "S3Reset", "S3ResetAll", "S3TokenEvent", "S3TokenEventWithID", "S3TokenReset", "S4", "S4q", "S6", "S7", "S8", "S8r", "S9",
+             "S10", "S11", "S12", "S13", "S13b", "Q6", "QEshutdown", "QEshutdownBusy"]
     if tier == "quick":
         for s in scens:
             big = s in ("S1", "S2", "Q6", "S8r", "QEshutdownBusy", "S9")
             ts += explore(s, "w1-in4-default-direct", 2, shards=4 if big else 1, timeout="100s")
             if s == "QEshutdownBusy":
                 continue  # two workers: thorough tier only (1.5 million schedules at bound 1)
-            if s in ("S8", "S8r", "S4q", "S9", "S12"):
+            if s == "S13b":
+                continue  # two workers: thorough tier only
+            if s in ("S8", "S8r", "S4q", "S9", "S12", "S13"):
                 ts += explore(s, CFG_DEFAULT, 1, shards=2, timeout="100s")
             elif s != "Q6":
                 ts += explore(s, CFG_DEFAULT, 1 if big else 2, shards=2 if big else 1, timeout="100s")
@@ -110,7 +118,12 @@ def tasks_c04(tier, seed):
     # requests to a restarted service (Shutdown dropped queued work of the same resource)
     if tier == "quick":
         ts += explore("S8r", "w1-in4-default-direct", 2, shards=2, timeout="100s")
+        # more queued work items than the work buffer holds (in-channel size 1, one worker)
+        ts += explore("Q3", "w1-in1-tagged-route", 2, shards=4, timeout="60s")
+        ts += explore("S13", "w1-in4-default-direct", 2, timeout="60s")
     else:
+        ts += explore("Q3", "w1-in1-tagged-route", 3, shards=8, timeout="5m") + explore("Q3", "w2-in1-default-direct", 2, shards=8, timeout="5m")
+        ts += explore("S13", "w1-in4-default-direct", 3, shards=4, timeout="5m") + explore("S13", CFG_DEFAULT, 2, shards=8, timeout="5m")
         ts += explore("S8r", "w1-in4-default-direct", 3, shards=8, timeout="10m") + explore("S8r", CFG_DEFAULT, 2, shards=8, timeout="10m")
     return ts
 
@@ -124,7 +137,13 @@ def tasks_c07(tier, seed):
 
 
 def tasks_c08(tier, seed):
-    return seq("c08", tier, shards=16)
+    ts = seq("c08", tier, shards=16)
+    # the messages of the second epoch's callbacks must appear on the second epoch's connection
+    if tier == "quick":
+        ts += explore("S13", "w1-in4-default-direct", 2, timeout="60s") + explore("S13", CFG_DEFAULT, 1, shards=2, timeout="60s")
+    else:
+        ts += explore("S13", "w1-in4-default-direct", 3, shards=4, timeout="5m") + explore("S13", CFG_DEFAULT, 2, shards=8, timeout="5m")
+    return ts
 
 
 def tasks_c06(tier, seed):
